@@ -3,26 +3,34 @@
    explicit (initial world, history) pairs: ebuild edited / touched, eclass edited (directly and
    indirectly inherited), eclass removed (with and without a copy further down the stack),
    eclass moved between the stacked repositories, overlay eclass added in front of the master's,
-   entry lacking INHERIT, plain cache hit.  TLC evaluates them (and checks each against the
+   entry lacking INHERIT, plain cache hit, two packages sharing an
+   eclass and read in one session (both orders) while their entries record different checksums.  TLC evaluates them (and checks each against the
    read-outcome operators: every scenario really has a read after an edit) and serialises
    them for drivers/c48_cachevalidity.py.                                                  *)
 EXTENDS CacheValidity, Sequences, TLC, Json, IOUtils, SequencesExt
 
 F(c, x) == [cid |-> c, nest |-> x, mt |-> 0]
 None == AbsentFile
-World(inh, ma, mb, oa, ob) ==
-    [eb |-> [cid |-> 1, inh |-> inh, mt |-> 0],
+NoPkg == [cid |-> 0, inh |-> "", mt |-> 0]
+\* two packages (p2 may be missing: NoPkg) sharing the eclass files
+World2(inh1, eb2, ma, mb, oa, ob) ==
+    [ebs |-> [p \in {"p1", "p2"} |-> IF p = "p1" THEN [cid |-> 1, inh |-> inh1, mt |-> 0] ELSE eb2],
      ecl |-> [r \in Repos |-> [n \in Eclasses |-> IF r = "m" THEN (IF n = "a" THEN ma ELSE mb)
                                                             ELSE (IF n = "a" THEN oa ELSE ob)]]]
-A(ev, r, n, c, x, i, r2) == [ev |-> ev, r |-> r, n |-> n, cid |-> c, nest |-> x, inh |-> i, r2 |-> r2]
-Rd == A("Read", "-", "-", 0, FALSE, "", "-")
-EditEb(c, i)       == A("EditEbuild", "-", "-", c, FALSE, i, "-")
-TouchEb            == A("TouchEbuild", "-", "-", 0, FALSE, "", "-")
-EditEc(r, n, c, x) == A("EditEclass", r, n, c, x, "", "-")
-TouchEc(r, n)      == A("TouchEclass", r, n, 0, FALSE, "", "-")
-RemoveEc(r, n)     == A("RemoveEclass", r, n, 0, FALSE, "", "-")
-MoveEc(n, r1, r2)  == A("MoveEclass", r1, n, 0, FALSE, "", r2)
-Strip              == A("StripInherit", "-", "-", 0, FALSE, "", "-")
+World(inh, ma, mb, oa, ob) == World2(inh, NoPkg, ma, mb, oa, ob)
+Pkg2(c, inh) == [cid |-> c, inh |-> inh, mt |-> 0]
+A(ev, p, r, n, c, x, i, r2) == [ev |-> ev, pkg |-> p, r |-> r, n |-> n, cid |-> c, nest |-> x, inh |-> i, r2 |-> r2]
+\* a read session: the packages named by the order code are read through the same objects
+RdS(order) == A("Read", order, "-", "-", 0, FALSE, "", "-")
+Rd == RdS("p1")
+EditEbP(p, c, i)   == A("EditEbuild", p, "-", "-", c, FALSE, i, "-")
+EditEb(c, i)       == EditEbP("p1", c, i)
+TouchEb            == A("TouchEbuild", "p1", "-", "-", 0, FALSE, "", "-")
+EditEc(r, n, c, x) == A("EditEclass", "-", r, n, c, x, "", "-")
+TouchEc(r, n)      == A("TouchEclass", "-", r, n, 0, FALSE, "", "-")
+RemoveEc(r, n)     == A("RemoveEclass", "-", r, n, 0, FALSE, "", "-")
+MoveEc(n, r1, r2)  == A("MoveEclass", "-", r1, n, 0, FALSE, "", r2)
+Strip              == A("StripInherit", "p1", "-", "-", 0, FALSE, "", "-")
 
 Scen(name, w0, hist) == [name |-> name, w0 |-> w0, hist |-> hist]
 Scenarios == {
@@ -46,11 +54,27 @@ Scenarios == {
     Scen("strip-inherit",    World("ab", F(1, FALSE), F(1, FALSE), None, None), <<Rd, Strip, Rd, Rd>>),
     Scen("strip-inherit-then-edit", World("a", F(1, FALSE), None, None, None), <<Rd, Strip, EditEc("m", "a", 2, FALSE), Rd>>),
     Scen("no-eclasses",      World("", F(1, FALSE), None, None, None),         <<Rd, EditEc("m", "a", 2, FALSE), Rd, EditEb(2, ""), Rd>>),
-    Scen("broken-from-start", World("ab", F(1, FALSE), None, None, None),      <<Rd, EditEc("o", "b", 1, FALSE), Rd, Rd>>) }
+    Scen("broken-from-start", World("ab", F(1, FALSE), None, None, None),      <<Rd, EditEc("o", "b", 1, FALSE), Rd, Rd>>),
+    \* two packages sharing an eclass, read through ONE repository / eclass-cache object, both orders;
+    \* after the eclass edit only p1 is refreshed, so the two entries record different checksums of a
+    Scen("shared-eclass-fresh-entry-first", World2("a", Pkg2(2, "a"), F(1, FALSE), None, None, None),
+         <<RdS("p1p2"), EditEc("m", "a", 2, FALSE), RdS("p1"), RdS("p1p2"), RdS("p2p1")>>),
+    Scen("shared-eclass-stale-entry-first", World2("a", Pkg2(2, "a"), F(1, FALSE), None, None, None),
+         <<RdS("p2p1"), EditEc("m", "a", 2, FALSE), RdS("p2"), RdS("p1p2"), RdS("p1p2")>>),
+    Scen("shared-indirect-eclass", World2("a", Pkg2(2, "b"), F(1, TRUE), F(1, FALSE), None, None),
+         <<RdS("p1p2"), EditEc("m", "b", 2, FALSE), RdS("p2"), RdS("p2p1"), RdS("p1p2")>>),
+    Scen("shared-eclass-moved", World2("ab", Pkg2(2, "a"), F(1, FALSE), F(1, FALSE), None, None),
+         <<RdS("p1p2"), MoveEc("a", "m", "o"), RdS("p2"), RdS("p2p1")>>),
+    Scen("two-packages-one-ebuild-edited", World2("a", Pkg2(2, "ab"), F(1, FALSE), F(1, FALSE), None, None),
+         <<RdS("p1p2"), EditEbP("p2", 3, "a"), RdS("p1p2"), TouchEb, RdS("p2p1")>>),
+    Scen("shared-eclass-removed", World2("a", Pkg2(2, "ab"), F(1, FALSE), F(1, FALSE), None, None),
+         <<RdS("p1p2"), RemoveEc("m", "b"), RdS("p1p2"), RdS("p2p1")>>) }
 
 Cases == {[kind |-> k, name |-> s.name, w0 |-> s.w0, hist |-> s.hist] : k \in {"md5", "flat"}, s \in Scenarios}
 \* sanity: a scenario starts with a read (filling the cache) and has a later read after an edit
-ASSUME \A s \in Scenarios : /\ s.hist[1] = Rd /\ s.hist[Len(s.hist)] = Rd
-                            /\ (s.name # "hit" => \E k \in DOMAIN s.hist : s.hist[k] # Rd)
+ASSUME \A s \in Scenarios : /\ s.hist[1].ev = "Read" /\ s.hist[Len(s.hist)].ev = "Read"
+                            /\ (s.name # "hit" => \E k \in DOMAIN s.hist : s.hist[k].ev # "Read")
+                            \* a session only names packages that exist
+                            /\ \A k \in DOMAIN s.hist : (s.hist[k].ev = "Read" /\ s.hist[k].pkg # "p1") => s.w0.ebs["p2"].cid # 0
 ASSUME ndJsonSerialize(IOEnv.OUT, SetToSeq(Cases))
 =============================================================================
